@@ -948,6 +948,7 @@ func TestC09(t *testing.T) {
 	dir := e.directed(rand.New(rand.NewSource(seed ^ 0x5eed)))
 	dir = append(dir, e.createPrograms(rand.New(rand.NewSource(seed^0xc7ea)))...)
 	dir = append(dir, e.directCalls(rand.New(rand.NewSource(seed^0xd1ec)))...)
+	dir = append(dir, e.directedPairPrograms(rand.New(rand.NewSource(seed^0x9a1f)))...)
 	for pi := 0; pi < nProg+len(dir); pi++ {
 		out.Reset()
 		var p *program
